@@ -159,14 +159,14 @@ LexVars(l, base) == [n \in Names |-> IF \E i \in LexDecls(l) : n \in DeclTargets
 
 -----------------------------------------------------------------------------
 RECURSIVE EvalE(_, _, _, _), EvalS(_, _, _, _), EvalL(_, _, _, _, _), EvalArgs(_, _, _, _, _, _), CallFn(_, _, _, _),
-          EvalBlock(_, _, _, _), ForLoop(_, _, _, _, _), EvalProps(_, _, _, _, _, _), GetV(_, _, _), PutV(_, _, _, _, _), GetRef(_, _, _), PutRef(_, _, _, _, _), RunFn(_, _, _, _, _), Construct(_, _, _, _), SuperGet(_, _, _, _), MkClass(_, _, _), DefMembers(_, _, _, _, _, _), BindPat(_, _, _, _, _, _, _), HoistF(_, _, _, _, _), BindParams(_, _, _, _, _, _),
+          EvalBlock(_, _, _, _), ForLoop(_, _, _, _, _), EvalProps(_, _, _, _, _, _), GetV(_, _, _), PutV(_, _, _, _, _), GetRef(_, _, _), PutRef(_, _, _, _, _), RunFn(_, _, _, _, _), Construct(_, _, _, _), SuperGet(_, _, _, _), RunFields(_, _, _, _, _), MkClass(_, _, _), DefMembers(_, _, _, _, _, _), BindPat(_, _, _, _, _, _, _), HoistF(_, _, _, _, _), BindParams(_, _, _, _, _, _),
           FindCase(_, _, _, _, _, _), RunCases(_, _, _, _, _), ForOf(_, _, _, _, _, _)
 
 \* closures: [p: parameter names, body: statement list, env, kind: "arrow" | "func" | "named", name, strict]
 MkFn(st, e, env, strict) ==
   \* so / po: the objects holding a class constructor's static members / its prototype property; par: the superclass constructor; der: derived
   LET cl == [p |-> e.p, d |-> e.d, pp |-> e.pp, body |-> e.k, env |-> env, kind |-> e.kind, name |-> e.x, strict |-> strict \/ e.s = 1,
-             so |-> 0, po |-> 0, par |-> 0, der |-> FALSE, home |-> 0]
+             so |-> 0, po |-> 0, par |-> 0, der |-> FALSE, home |-> 0, flds |-> <<>>]
   IN [st |-> [st EXCEPT !.fns = Append(@, cl)], id |-> Len(st.fns) + 1]
 
 EvalE(e, env, st, sm) ==
@@ -289,7 +289,12 @@ EvalE(e, env, st, sm) ==
                       r == Construct(as.r.st, as.r.st.fns[F.fid].par, as.vals, F.nt)
                   IN IF Abrupt(r) THEN r
                      ELSE IF r.st.envs[fe].th.t # "tdz" THEN Thr(r.st, RefErr)
-                     ELSE Ok([r.st EXCEPT !.envs[fe].th = r.c.v], r.c.v))
+                     ELSE LET bound == [r.st EXCEPT !.envs[fe].th = r.c.v]
+                              cf == bound.fns[F.fid]
+                              \* (the fields of a derived class are installed on what super() returned, if that is one of the modelled objects)
+                              fi == IF ObjOf(bound, r.c.v) = 0 THEN (IF Len(cf.flds) = 0 THEN Ok(bound, Undef) ELSE Thr(bound, Err(7777)))
+                                    ELSE RunFields(bound, cf.flds, 1, cf.env, r.c.v)
+                          IN IF Abrupt(fi) THEN fi ELSE Ok(fi.st, r.c.v))
     \* 13.3.5 new: callee, arguments, IsConstructor (arrows and accessor functions are not), 10.2.2 [[Construct]] of an ordinary
     \* function: a fresh object is this; an object returned by the body replaces it
     [] e.t = "new" -> (LET f == EvalE(e.k[1], env, st, sm) IN
@@ -452,6 +457,7 @@ BindParams(cl, i, args, penv, st, sm) ==
 \* k: members [x: key, kind: "m" | "get" | "set", st: 1 static, k: <<function node>>]]. Everything inside is strict mode code.
 DefMembers(k, i, cenv, st, po, so) ==
   IF i > Len(k) THEN st
+  ELSE IF k[i].kind = "field" THEN DefMembers(k, i + 1, cenv, st, po, so)
   ELSE LET mb == k[i]
            tgt == IF mb.st = 1 THEN so ELSE po
            m0 == MkFn(st, [mb.k[1] EXCEPT !.kind = IF mb.kind = "m" THEN "meth" ELSE "acc"], cenv, TRUE)
@@ -461,6 +467,14 @@ DefMembers(k, i, cenv, st, po, so) ==
                  ELSE [k |-> "acc", v |-> Undef, g |-> IF mb.kind = "get" THEN m.id ELSE IF old.k = "acc" THEN old.g ELSE 0,
                                                  s |-> IF mb.kind = "set" THEN m.id ELSE IF old.k = "acc" THEN old.s ELSE 0]
        IN DefMembers(k, i + 1, cenv, [m.st EXCEPT !.objs[tgt][mb.x] = pr], po, so)
+\* 7.3.34 DefineField for the field definitions fs[i..] on the object behind th: the initialiser runs like a method body (this = th,
+\* scope = the class scope); the value becomes an OWN data property (CreateDataPropertyOrThrow: an inherited accessor is not consulted)
+RunFields(st, fs, i, cenv, th) ==
+  IF i > Len(fs) THEN Ok(st, Undef)
+  ELSE LET st1 == NewFEnv(st, cenv, NoVars, <<>>, <<>>, 0, th, 0, 0)
+           v == IF Len(fs[i].k) = 0 THEN Ok(st1, Undef) ELSE EvalE(fs[i].k[1], Top(st1), st1, TRUE)
+       IN IF Abrupt(v) THEN v
+          ELSE RunFields([v.st EXCEPT !.objs[ObjOf(v.st, th)][fs[i].x] = DataProp(v.c.v)], fs, i + 1, cenv, th)
 MkClass(e, env, st) ==
   LET st1 == IF e.x # "" THEN NewEnv(st, env, [NoVars EXCEPT ![e.x] = TDZ("const")]) ELSE st
       cenv == IF e.x # "" THEN Top(st1) ELSE env
@@ -478,11 +492,15 @@ MkClass(e, env, st) ==
                     ELSE [p |-> <<>>, d |-> <<>>, pp |-> <<>>, x |-> "", s |-> 1,
                           k |-> IF der THEN << [t |-> "expr", k |-> << [t |-> "supercall", spread |-> 1, k |-> <<>>] >>] >> ELSE <<>>]
               cl == [p |-> cn.p, d |-> cn.d, pp |-> cn.pp, body |-> cn.k, env |-> cenv, kind |-> "class", name |-> e.x, strict |-> TRUE,
-                     so |-> so, po |-> po, par |-> par, der |-> der, home |-> po]
+                     so |-> so, po |-> po, par |-> par, der |-> der, home |-> po,
+                     flds |-> SelectSeq(e.k, LAMBDA mb : mb.kind = "field" /\ mb.st = 0)]
               st3 == [st2 EXCEPT !.fns = Append(@, cl)]
               id == Len(st3.fns)
               st4 == DefMembers(e.k, 1, cenv, st3, po, so)
-          IN Ok(IF e.x # "" THEN SetB(st4, cenv, e.x, Init(Fn(id), "const")) ELSE st4, Fn(id))
+              st5 == IF e.x # "" THEN SetB(st4, cenv, e.x, Init(Fn(id), "const")) ELSE st4
+              \* static fields: after all methods exist and the class binding is initialised, in order, with the constructor as this
+              sf == RunFields(st5, SelectSeq(e.k, LAMBDA mb : mb.kind = "field" /\ mb.st = 1), 1, cenv, Fn(id))
+          IN IF Abrupt(sf) THEN sf ELSE Ok(sf.st, Fn(id))
 
 \* 10.2.1 [[Call]]: a class constructor cannot be called; 10.2.1.2 OrdinaryCallBindThis: sloppy functions see the global object
 CallFn(st0, id, args, tv) ==
@@ -495,12 +513,15 @@ CallFn(st0, id, args, tv) ==
 \* returns; a returned non-object other than undefined is a TypeError; no this at the end is a ReferenceError.
 TdzThis == [t |-> "tdz", v |-> 0]
 IsObjV(v) == v.t \in {"obj", "fn", "err"}          \* (functions and error objects are objects too)
-Construct(st, id, args, nt) ==
-  LET cl == st.fns[id] IN
-  IF ~cl.der
+Construct(st00, id, args, nt) ==
+  LET cl == st00.fns[id]
+      st == [st00 EXCEPT !.fuel = @ - 1] IN          \* (a field initialiser may construct its own class: bounded like calls)
+  IF st00.fuel <= 0 THEN Thr(st00, Err(7777))
+  ELSE IF ~cl.der
   THEN LET st1 == [st EXCEPT !.objs = Append(@, ObjWithProto(IF cl.kind = "class" THEN st.fns[nt].po ELSE 0))]
            o == Obj(Len(st1.objs))
-           r == RunFn(st1, id, args, o, nt)
+           fi == IF cl.kind = "class" THEN RunFields(st1, cl.flds, 1, cl.env, o) ELSE Ok(st1, Undef)     \* InitializeInstanceElements
+           r == IF Abrupt(fi) THEN fi ELSE RunFn(fi.st, id, args, o, nt)
        IN IF Abrupt(r) THEN r ELSE IF IsObjV(r.c.v) THEN r ELSE Ok(r.st, o)
   ELSE LET fe == Len(st.envs) + 1                       \* (the function environment is the first one the call creates)
            r == RunFn(st, id, args, TdzThis, nt)
